@@ -100,27 +100,9 @@ Qed.
 Lemma elements_enc l : elements (enc l) = elems_of l 0.
 Proof. unfold elements. apply chain_enc. lia. Qed.
 
-Lemma cut_empty_elems_of : forall r off,
-  forallb (fun t : tag => negb (zlen (snd t) =? 0)) r = true ->
-  cut_empty (elems_of r off) = elems_of r off.
-Proof.
-  induction r as [|t r IH]; intros off H; [reflexivity|].
-  cbn [forallb] in H. apply andb_true_iff in H. destruct H as [H1 H2].
-  cbn [elems_of cut_empty e_len].
-  destruct (zlen (snd t) =? 0); [discriminate|]. rewrite IH by assumption. reflexivity.
-Qed.
-
-Lemma reported_enc_full l : nonleading_nonemptyb l = true -> reported (enc l) = elems_of l 0.
-Proof.
-  intros H. unfold reported. rewrite elements_enc. destruct l as [|t r]; [reflexivity|].
-  cbn [elems_of]. cbn [nonleading_nonemptyb] in H. rewrite cut_empty_elems_of by assumption.
-  reflexivity.
-Qed.
-
-Lemma reported_enc_prefix l : exists tl, elems_of l 0 = reported (enc l) ++ tl.
-Proof.
-  destruct (reported_prefix (enc l)) as (tl & H & _). exists tl. rewrite <- elements_enc. exact H.
-Qed.
+(* the iterator reports every element of an encoding, empty ones included (finding F44) *)
+Lemma reported_enc l : reported (enc l) = elems_of l 0.
+Proof. rewrite reported_all. apply elements_enc. Qed.
 
 (* the element found in a prefix of the elements is the first one carrying that number *)
 Lemma find_prefix : forall l pre tl off n e,
@@ -159,11 +141,11 @@ Qed.
 
 (* ---------- the model functions on an encoding ---------- *)
 Lemma iter_of_enc s l : wf_tags l -> t_bytes s = enc l -> t_len s = zlen (enc l) ->
-  iter_of s = Done (match l with [] => Err (- EINVAL) | _ => Ok (reported (enc l)) end).
+  iter_of s = Done (match l with [] => Err (- EINVAL) | _ => Ok (elems_of l 0) end).
 Proof.
   intros Hwf Hb Hl. unfold iter_of. rewrite Hl, Hb.
   rewrite (iterate_exact (enc l) (rd_strict (enc l)) (enc_wf l Hwf) (agrees_strict (enc l))).
-  unfold spec_iterate. rewrite elements_enc. destruct l; reflexivity.
+  unfold spec_iterate. rewrite reported_enc, elements_enc. destruct l; reflexivity.
 Qed.
 
 Lemma quick_add_enc s l n b : wf_tag (n, b) -> t_bytes s = enc l -> t_len s = zlen (enc l) ->
@@ -200,99 +182,59 @@ Proof.
   apply firstn_zlen.
 Qed.
 
-(* removal on an encoding; the result is the reference one whenever the iterator sees every element, and
-   also whenever it gets as far as an element with that number (elements after it may then be empty) *)
-Lemma remove_tag_enc_found s l n : wf_tags l -> t_bytes s = enc l -> t_len s = zlen (enc l) ->
-  exists s' l', remove_tag s n = Done (s', match l with [] => - EINVAL | _ => 0 end) /\
-    wf_tags l' /\ t_bytes s' = enc l' /\ t_len s' = zlen (enc l') /\
-    (nonleading_nonemptyb l = true \/ find_num n (reported (enc l)) <> None -> l' = remove_first n l).
-Proof.
-  intros Hwf Hb Hl. unfold remove_tag. rewrite (iter_of_enc s l Hwf Hb Hl).
-  destruct l as [|t0 r0] eqn:EL.
-  - cbn [bind]. exists s, []. repeat split; auto.
-  - rewrite <- EL in *. cbn [bind].
-    destruct (find_num n (reported (enc l))) as [e|] eqn:F.
-    + destruct (reported_enc_prefix l) as (tl & Hp).
-      destruct (find_prefix l _ tl 0 n e Hp F) as (a & t & b & Hlab & Ho & Hlen & Hr).
-      rewrite Z.add_0_l in Ho.
-      destruct (remove_alg a t b) as [A1 A2].
-      eexists. exists (a ++ b). split; [reflexivity|]. cbn [t_bytes t_len].
-      rewrite Hb, Hl, Ho, Hlen, Hlab.
-      split; [|split; [exact A1 | split; [exact A2|]]].
-      * unfold wf_tags in *. rewrite Hlab in Hwf. apply Forall_app in Hwf. destruct Hwf as [Wa Wb].
-        inversion Wb; subst. apply Forall_app. split; assumption.
-      * intros _. rewrite <- Hlab. symmetry. exact Hr.
-    + exists s, l. repeat split; auto.
-      intros [Hn|Hn]; [|exfalso; apply Hn; reflexivity].
-      rewrite (reported_enc_full l Hn) in F. symmetry. eapply find_none; eauto.
-Qed.
-
-Lemma remove_tag_enc s l n : wf_tags l -> t_bytes s = enc l -> t_len s = zlen (enc l) ->
-  exists s' l', remove_tag s n = Done (s', match l with [] => - EINVAL | _ => 0 end) /\
-    wf_tags l' /\ t_bytes s' = enc l' /\ t_len s' = zlen (enc l') /\
-    (nonleading_nonemptyb l = true -> l' = remove_first n l).
-Proof.
-  intros Hwf Hb Hl.
-  destruct (remove_tag_enc_found s l n Hwf Hb Hl) as (s' & l' & R & W & B & L & N).
-  exists s', l'. repeat split; auto.
-Qed.
-
 Lemma zlen_enc_0 l : zlen (enc l) = 0 -> l = [].
 Proof.
   destruct l as [|t r]; [reflexivity|]. rewrite enc_cons1, zlen_app, zlen_enc1.
   pose proof (zlen_nonneg (snd t)). pose proof (zlen_nonneg (enc r)). lia.
 Qed.
+Lemma zlen_enc_pos t r : (zlen (enc (t :: r)) =? 0) = false.
+Proof.
+  apply Z.eqb_neq. intros H. apply zlen_enc_0 in H. discriminate.
+Qed.
 
 Lemma wf_tags_snoc l t : wf_tags l -> wf_tag t -> wf_tags (l ++ [t]).
 Proof. intros H1 H2. apply Forall_app. split; [exact H1 | constructor; [exact H2 | constructor]]. Qed.
+Lemma wf_remove_first n : forall l, wf_tags l -> wf_tags (remove_first n l).
+Proof.
+  induction l as [|t r IH]; intros H; [exact H|].
+  inversion H; subst. cbn [remove_first]. destruct (fst t =? n); [assumption|].
+  constructor; [assumption | apply IH; assumption].
+Qed.
+Lemma wf_spec_set l num data : wf_tags l -> wf_tag (num, data) -> wf_tags (spec_set l num data).
+Proof. intros H1 H2. apply wf_tags_snoc; [apply wf_remove_first; exact H1 | exact H2]. Qed.
 
+(* removal on an encoding is the reference removal, for every list (the empty one included: finding F50) and
+   whatever the lengths of its elements (finding F44); the return value is always 0 *)
+Lemma remove_tag_enc s l n : wf_tags l -> t_bytes s = enc l -> t_len s = zlen (enc l) ->
+  exists s', remove_tag s n = Done (s', 0) /\
+    t_bytes s' = enc (remove_first n l) /\ t_len s' = zlen (enc (remove_first n l)).
+Proof.
+  intros Hwf Hb Hl. unfold remove_tag.
+  destruct (t_len s =? 0) eqn:C.
+  - apply Z.eqb_eq in C. rewrite Hl in C. apply zlen_enc_0 in C. subst l. exists s. auto.
+  - assert (Hne : l <> []) by (intros E; rewrite Hl, E in C; discriminate C).
+    rewrite (iter_of_enc s l Hwf Hb Hl).
+    destruct l as [|t0 r0] eqn:EL; [contradiction|]. rewrite <- EL in *. cbn [bind].
+    destruct (find_num n (elems_of l 0)) as [e|] eqn:F.
+    + destruct (find_prefix l _ [] 0 n e (eq_sym (app_nil_r _)) F) as (a & t & b & Hlab & Ho & Hlen & Hr).
+      rewrite Z.add_0_l in Ho.
+      destruct (remove_alg a t b) as [A1 A2].
+      eexists. split; [reflexivity|]. cbn [t_bytes t_len].
+      rewrite Hr, Hb, Hl, Ho, Hlen, Hlab. split; [exact A1 | exact A2].
+    + exists s. rewrite (find_none l 0 n F). auto.
+Qed.
+
+(* counting on an encoding is the reference count, for every list *)
 Lemma check_tag_enc s l n : wf_tags l -> t_bytes s = enc l -> t_len s = zlen (enc l) ->
-  exists c, check_tag s n = Done c /\
-    (nonleading_nonemptyb l = true -> c = match l with [] => - EINVAL | _ => count_num n l end).
+  check_tag s n = Done (count_num n l).
 Proof.
-  intros Hwf Hb Hl. unfold check_tag. rewrite (iter_of_enc s l Hwf Hb Hl).
-  destruct l as [|t0 r0] eqn:EL.
-  - cbn [bind]. eexists. split; [reflexivity|]. auto.
-  - rewrite <- EL in *. cbn [bind]. eexists. split; [reflexivity|].
-    intros Hn. rewrite (reported_enc_full l Hn). apply count_elems_of.
-Qed.
-
-(* on a non-empty list the count is a count *)
-Lemma check_tag_nonneg s l n c : wf_tags l -> t_bytes s = enc l -> t_len s = zlen (enc l) ->
-  l <> [] -> check_tag s n = Done c -> 0 <= c.
-Proof.
-  intros Hwf Hb Hl Hne. unfold check_tag. rewrite (iter_of_enc s l Hwf Hb Hl).
-  destruct l as [|t0 r0]; [contradiction|]. cbn [bind]. intros H. inversion H. apply zlen_nonneg.
-Qed.
-
-(* ---------- the list extended by one element (what the setters iterate over after the add) ---------- *)
-Lemma cut_empty_elems_of_app : forall r q off,
-  forallb (fun t : tag => negb (zlen (snd t) =? 0)) r = true ->
-  exists tl, cut_empty (elems_of (r ++ q) off) = elems_of r off ++ tl.
-Proof.
-  induction r as [|t r IH]; intros q off H.
-  - eexists. reflexivity.
-  - cbn [forallb] in H. apply andb_true_iff in H. destruct H as [H1 H2].
-    cbn [app elems_of cut_empty e_len].
-    destruct (zlen (snd t) =? 0); [discriminate|].
-    destruct (IH q (off + 2 + zlen (snd t)) H2) as (tl & E). rewrite E. exists tl. reflexivity.
-Qed.
-
-(* every element of l is still reported after one more element, of any length, has been appended *)
-Lemma reported_snoc l x : l <> [] -> nonleading_nonemptyb l = true ->
-  exists tl, reported (enc (l ++ [x])) = elems_of l 0 ++ tl.
-Proof.
-  intros Hne Hn. unfold reported. rewrite elements_enc.
-  destruct l as [|t r]; [contradiction|]. cbn [nonleading_nonemptyb] in Hn.
-  cbn [app elems_of].
-  destruct (cut_empty_elems_of_app r [x] (0 + 2 + zlen (snd t)) Hn) as (tl & E).
-  rewrite E. exists tl. reflexivity.
-Qed.
-
-Lemma find_app_some : forall a b n, find_num n a <> None -> find_num n (a ++ b) <> None.
-Proof.
-  induction a as [|e a IH]; intros b n H; [exfalso; apply H; reflexivity|].
-  cbn [app find_num] in *. destruct (e_num e =? n); [discriminate|]. apply IH. exact H.
+  intros Hwf Hb Hl. unfold check_tag.
+  destruct (t_len s =? 0) eqn:C.
+  - apply Z.eqb_eq in C. rewrite Hl in C. apply zlen_enc_0 in C. subst l. reflexivity.
+  - assert (Hne : l <> []) by (intros E; rewrite Hl, E in C; discriminate C).
+    rewrite (iter_of_enc s l Hwf Hb Hl).
+    destruct l as [|t0 r0] eqn:EL; [contradiction|]. rewrite <- EL in *. cbn [bind].
+    rewrite count_elems_of. reflexivity.
 Qed.
 
 Lemma count_num_cons t r n :
@@ -303,12 +245,11 @@ Qed.
 Lemma count_num_nonneg n l : 0 <= count_num n l.
 Proof. apply zlen_nonneg. Qed.
 
-Lemma count_pos_find : forall l off n, 0 < count_num n l -> find_num n (elems_of l off) <> None.
+(* the count is a count *)
+Lemma check_tag_nonneg s l n c : wf_tags l -> t_bytes s = enc l -> t_len s = zlen (enc l) ->
+  check_tag s n = Done c -> 0 <= c.
 Proof.
-  induction l as [|t r IH]; intros off n H.
-  - change (count_num n []) with 0 in H. lia.
-  - rewrite count_num_cons in H. cbn [elems_of find_num e_num].
-    destruct (fst t =? n); [discriminate|]. apply IH. lia.
+  intros Hwf Hb Hl. rewrite (check_tag_enc s l n Hwf Hb Hl). intros H. inversion H. apply count_num_nonneg.
 Qed.
 
 Lemma count_zero_remove : forall l n, count_num n l = 0 -> remove_first n l = l.
@@ -327,45 +268,32 @@ Proof.
     destruct (fst t =? n); [reflexivity|]. cbn [app]. f_equal. apply IH. lia.
 Qed.
 
-(* the setters: count, add, then remove the first (= old) element when there was one *)
+(* the setters: count, add, then remove the first (= old) element when there was one.  They are the reference
+   'set' on every list and always return 0 *)
 Lemma set_tag_enc s l num data : wf_tags l -> t_bytes s = enc l -> t_len s = zlen (enc l) ->
   wf_tag (num, data) ->
-  exists s' r l', set_tag s num data = Done (s', r) /\
-    wf_tags l' /\ t_bytes s' = enc l' /\ t_len s' = zlen (enc l') /\
-    (nonleading_nonemptyb l = true -> l' = spec_set l num data /\ r = 0).
+  exists s', set_tag s num data = Done (s', 0) /\
+    t_bytes s' = enc (spec_set l num data) /\ t_len s' = zlen (enc (spec_set l num data)).
 Proof.
   intros Hwf Hb Hl Ht. unfold set_tag, spec_set.
   destruct (quick_add_enc s l num data Ht Hb Hl) as (s1 & Q & Qb & Ql).
   assert (W1 : wf_tags (l ++ [(num, data)])) by (apply wf_tags_snoc; assumption).
-  destruct (t_len s =? 0) eqn:C.
-  - apply Z.eqb_eq in C. rewrite Hl in C. apply zlen_enc_0 in C. subst l.
-    cbn [bind]. change (0 <? 0) with false. cbv iota. rewrite Q.
-    change (negb (0 =? 0)) with false. cbv iota.
-    exists s1, 0, ([] ++ [(num, data)]). repeat split; auto.
-  - apply Z.eqb_neq in C.
-    assert (Hne : l <> []) by (intros E; apply C; rewrite Hl, E; reflexivity).
-    destruct (check_tag_enc s l num Hwf Hb Hl) as (c & Cc & CN).
-    pose proof (check_tag_nonneg s l num c Hwf Hb Hl Hne Cc) as C0.
-    rewrite Cc. cbn [bind].
-    replace (c <? 0) with false by lia. rewrite Q.
-    change (negb (0 =? 0)) with false. cbv iota.
-    destruct (0 <? c) eqn:Cp.
-    + apply Z.ltb_lt in Cp.
-      destruct (remove_tag_enc_found s1 (l ++ [(num, data)]) num W1 Qb Ql)
-        as (s' & l' & R & W' & B' & L' & N').
-      assert (E0 : match l ++ [(num, data)] with [] => - EINVAL | _ :: _ => 0 end = 0)
-        by (destruct l; reflexivity).
-      rewrite E0 in R. rewrite R. exists s', 0, l'. repeat split; auto.
-      pose proof (CN H) as Ec. destruct l as [|t0 r0] eqn:EL; [contradiction|]. rewrite <- EL in *.
-      subst c. rewrite N'; [apply remove_first_snoc; exact Cp|].
-      right. destruct (reported_snoc l (num, data) Hne H) as (tl & E).
-      assert (Hc : find_num num (elems_of l 0 ++ tl) <> None)
-        by (apply find_app_some, count_pos_find; exact Cp).
-      rewrite <- E in Hc. exact Hc.
-    + apply Z.ltb_ge in Cp.
-      exists s1, 0, (l ++ [(num, data)]). repeat split; auto.
-      pose proof (CN H) as Ec. destruct l as [|t0 r0] eqn:EL; [contradiction|]. rewrite <- EL in *.
-      rewrite count_zero_remove; [reflexivity | lia].
+  assert (P : (if t_len s =? 0 then Done 0 else check_tag s num) = Done (count_num num l)).
+  { destruct (t_len s =? 0) eqn:C; [|apply check_tag_enc; assumption].
+    apply Z.eqb_eq in C. rewrite Hl in C. apply zlen_enc_0 in C. subst l. reflexivity. }
+  rewrite P. cbn [bind].
+  pose proof (count_num_nonneg num l) as C0.
+  replace (count_num num l <? 0) with false by lia. rewrite Q.
+  change (negb (0 =? 0)) with false. cbv iota.
+  destruct (0 <? count_num num l) eqn:Cp.
+  - apply Z.ltb_lt in Cp.
+    destruct (remove_tag_enc s1 (l ++ [(num, data)]) num W1 Qb Ql) as (s' & R & B' & L').
+    pose proof (remove_first_snoc l num (num, data) Cp) as XX.
+    exists s'. split; [exact R|]. split.
+    + rewrite B'. apply (f_equal enc). exact XX.
+    + rewrite L'. apply (f_equal (fun x => zlen (enc x))). exact XX.
+  - apply Z.ltb_ge in Cp.
+    exists s1. rewrite count_zero_remove by lia. auto.
 Qed.
 
 Lemma wf_channel c : 0 <= c < 256 -> wf_tag (c_TAG_DS_PARAMETER, [c]).
@@ -374,38 +302,33 @@ Proof.
   change (zlen [c]) with 1. repeat split; try lia. constructor; [exact H | constructor].
 Qed.
 
-(* one step: total, keeps the encoding shape, and follows the reference list when it is constrained *)
+(* one step: total, keeps the encoding shape, and is exactly the reference step (which is total as well) *)
 Lemma step_enc s l o : wf_tags l -> t_bytes s = enc l -> t_len s = zlen (enc l) -> wf_op o ->
-  exists s' r l', step s o = Done (s', r) /\
-    wf_tags l' /\ t_bytes s' = enc l' /\ t_len s' = zlen (enc l') /\
-    (forall l2 r2, spec_step c_TAG_SSID c_TAG_DS_PARAMETER l o = Some (l2, r2) -> l' = l2 /\ r = r2).
+  exists s' r l', spec_step c_TAG_SSID c_TAG_DS_PARAMETER l o = Some (l', r) /\
+    step s o = Done (s', r) /\
+    wf_tags l' /\ t_bytes s' = enc l' /\ t_len s' = zlen (enc l').
 Proof.
   intros Hwf Hb Hl Ho. destruct o as [n b | n | b | c | n]; cbn [step wf_op spec_step] in *.
   - destruct (quick_add_enc s l n b Ho Hb Hl) as (s' & Q & Qb & Ql).
     rewrite Q. exists s', 0, (l ++ [(n, b)]). repeat split; auto.
-    + apply wf_tags_snoc; assumption.
-    + congruence.
-    + congruence.
-  - destruct (remove_tag_enc s l n Hwf Hb Hl) as (s1 & l1 & R & W1 & B1 & L1 & N1).
-    rewrite R. exists s1, (match l with [] => - EINVAL | _ => 0 end), l1. repeat split; auto.
-    + destruct (nonleading_nonemptyb l); [|discriminate]. rewrite N1 by reflexivity. congruence.
-    + destruct (nonleading_nonemptyb l); [|discriminate]. congruence.
+    apply wf_tags_snoc; assumption.
+  - destruct (remove_tag_enc s l n Hwf Hb Hl) as (s1 & R & B1 & L1).
+    rewrite R. exists s1, 0, (remove_first n l). repeat split; auto.
+    apply wf_remove_first; assumption.
   - unfold set_ssid.
-    destruct (set_tag_enc s l c_TAG_SSID b Hwf Hb Hl Ho) as (s' & r & l' & S & W & B & L & N).
-    rewrite S. exists s', r, l'. repeat split; auto.
-    + destruct (nonleading_nonemptyb l); [|discriminate]. destruct (N eq_refl). congruence.
-    + destruct (nonleading_nonemptyb l); [|discriminate]. destruct (N eq_refl). congruence.
+    destruct (set_tag_enc s l c_TAG_SSID b Hwf Hb Hl Ho) as (s' & S & B & L).
+    rewrite S. exists s', 0, (spec_set l c_TAG_SSID b). repeat split; auto.
+    apply wf_spec_set; assumption.
   - unfold set_channel.
-    destruct (set_tag_enc s l c_TAG_DS_PARAMETER [c] Hwf Hb Hl (wf_channel c Ho))
-      as (s' & r & l' & S & W & B & L & N).
-    rewrite S. exists s', r, l'. repeat split; auto.
-    + destruct (nonleading_nonemptyb l); [|discriminate]. destruct (N eq_refl). congruence.
-    + destruct (nonleading_nonemptyb l); [|discriminate]. destruct (N eq_refl). congruence.
-  - destruct (check_tag_enc s l n Hwf Hb Hl) as (c & Cc & N).
-    rewrite Cc. cbn [bind]. exists s, c, l. repeat split; auto.
-    + destruct (nonleading_nonemptyb l); [|discriminate]. congruence.
-    + destruct (nonleading_nonemptyb l); [|discriminate]. rewrite N by reflexivity. congruence.
+    destruct (set_tag_enc s l c_TAG_DS_PARAMETER [c] Hwf Hb Hl (wf_channel c Ho)) as (s' & S & B & L).
+    rewrite S. exists s', 0, (spec_set l c_TAG_DS_PARAMETER [c]). repeat split; auto.
+    apply wf_spec_set; [assumption | apply wf_channel; assumption].
+  - rewrite (check_tag_enc s l n Hwf Hb Hl). cbn [bind]. exists s, (count_num n l), l. repeat split; auto.
 Qed.
+
+(* the reference step is defined for every list and every operation *)
+Lemma spec_step_total : forall l o, exists l' r, spec_step c_TAG_SSID c_TAG_DS_PARAMETER l o = Some (l', r).
+Proof. intros l o. destruct o; cbn [spec_step]; eauto. Qed.
 
 (* ---------- the C05 lemmas ---------- *)
 Lemma step_refines : forall s l o l' r,
@@ -414,8 +337,18 @@ Lemma step_refines : forall s l o l' r,
   exists s', step s o = Done (s', r) /\ t_bytes s' = enc l' /\ t_len s' = zlen (enc l').
 Proof.
   intros s l o l' r Hwf Hb Hl Ho Hs.
-  destruct (step_enc s l o Hwf Hb Hl Ho) as (s' & r1 & l1 & S & W & B & L & N).
-  destruct (N l' r Hs) as [E1 E2]. subst l1 r1. exists s'. auto.
+  destruct (step_enc s l o Hwf Hb Hl Ho) as (s' & r1 & l1 & Sp & S & W & B & L).
+  rewrite Hs in Sp. injection Sp as E1 E2. subst l1 r1. exists s'. auto.
+Qed.
+
+(* the same without the escape: EVERY operation on EVERY well-formed list is the reference step *)
+Lemma step_refines_total : forall s l o,
+  wf_tags l -> t_bytes s = enc l -> t_len s = zlen (enc l) -> wf_op o ->
+  exists s' l' r, spec_step c_TAG_SSID c_TAG_DS_PARAMETER l o = Some (l', r) /\
+    step s o = Done (s', r) /\ wf_tags l' /\ t_bytes s' = enc l' /\ t_len s' = zlen (enc l').
+Proof.
+  intros s l o Hwf Hb Hl Ho.
+  destruct (step_enc s l o Hwf Hb Hl Ho) as (s' & r & l' & H). exists s', l', r. exact H.
 Qed.
 
 Lemma inv_empty : Inv tags_empty.
@@ -427,7 +360,7 @@ Proof.
   - exists s. split; [reflexivity | exact HI].
   - inversion Hops as [|? ? Ho Hr]; subst.
     destruct HI as (l & Hwf & Hb & Hl). rewrite Hb in Hl.
-    destruct (step_enc s l o Hwf Hb Hl Ho) as (s1 & r1 & l1 & S & W & B & L & _).
+    destruct (step_enc s l o Hwf Hb Hl Ho) as (s1 & r1 & l1 & _ & S & W & B & L).
     cbn [run]. rewrite S. cbn [bind].
     apply IH; [|exact Hr]. exists l1. rewrite B. auto.
 Qed.
